@@ -626,7 +626,8 @@ class Batch:
         if d:
             cls = raw_tag_class(cfg, info)
             ctx.violation(case, brief(impl, d), brief(expected, d), cls=cls,
-                          what=f"read_field_data differs from the logical content of the file in {d[:6]} (cfg {cfg_key(cfg)})")
+                          what=f"read_field_data differs from the logical content of the file in {d[:6]} (cfg {cfg_key(cfg)})"
+                               + (f" [class {cls}: raw appendix contains the bytes </AppendedData> or <AppendedData]" if cls else ""))
             if model_ok and cls is None:
                 ctx.mismatch(case, brief(impl, d), brief(expected, d), what="implementation vs model reader")
         return {"ok": not d, "diff": d, "impl": impl, "expected": expected}
